@@ -7,3 +7,5 @@ def add_obligations(pack, tier):
     from contracts import fn_criteria as K
     run_contracts(pack, [(K.deltadelta('C17'), None, K.replay_deltadelta)])
     K.bounded_types(pack, 'C17')
+    from contracts import fn_main as MN
+    run_contracts(pack, MN.items('C17'))
